@@ -23,6 +23,7 @@
 package rpc
 
 import (
+	"reflect"
 	"bufio"
 	"bytes"
 	"context"
@@ -931,15 +932,48 @@ func vfHdrRoundTrip(f []string) string {
 
 // ------------------------------------------------------------------------------------------ C40 end to end
 
-// e2e <n> then n groups of 32 tokens (the fields of an rt op; the query id token is ignored, the client assigns
-// its own): sequential calls on ONE real rpc.Client against ONE real rpc.Server over loopback TCP; every
-// Response is recycled with PutResponse before the next call.  Per call the result shows what the handler saw
-// and what the caller saw:  <actor> <tl2> <tag> <body> <req extra> => <B:body | E:code:desc:rest> <resp extra>
+// e2e <n> then n groups of 33 tokens: a path token + the fields of an rt op (the query id token is ignored, the
+// client assigns its own): sequential calls on ONE real rpc.Client against ONE real rpc.Server over loopback TCP;
+// every Response is recycled with PutResponse before the next call.  Paths:
+//
+//	d  the Handler (worker) answers directly
+//	l  the SyncHandler parks the request with StartLongpoll; the answer is written later into the fresh context
+//	   returned by LongpollHandle.FinishLongpoll and sent with SendLongpollResponse
+//	e  as l, but the server side asks for the "empty" answer: CommonConn.SendEmptyResponse -> the canceller's
+//	   WriteEmptyResponse fills the fresh context
+//	c  as l, but the caller cancels its context: RpcCancelReq -> CancelLongpoll, nothing is answered
+//
+// Per call the result shows what the handler saw and what the caller saw:
+// <actor> <tl2> <tag> <body> <req extra> => <B:body | E:code:desc:rest> <resp extra>   (c: => cancelled)
 type vfE2EScript struct {
+	path      string
 	respBody  []byte
 	errTok    string
 	respExtra ResponseExtra
 	seen      string
+	lh        LongpollHandle
+	started   chan error    // StartLongpoll returned
+	cancelled chan struct{} // CancelLongpoll called
+}
+
+func (sc *vfE2EScript) err() error {
+	if sc.errTok == "-" {
+		return nil
+	}
+	p := strings.Split(sc.errTok, ":")
+	return &Error{Code: int32(uint32(vfU64(p[0]))), Description: string(vfSub(p[1]))}
+}
+
+func (sc *vfE2EScript) fill(hctx *HandlerContext) error {
+	hctx.Response = append(hctx.Response, sc.respBody...)
+	hctx.ResponseExtra = sc.respExtra
+	return sc.err()
+}
+
+// LongpollCanceller
+func (sc *vfE2EScript) CancelLongpoll(lh LongpollHandle) { close(sc.cancelled) }
+func (sc *vfE2EScript) WriteEmptyResponse(lh LongpollHandle, hctx *HandlerContext) error {
+	return sc.fill(hctx)
 }
 
 var vfE2E struct {
@@ -953,6 +987,11 @@ var vfE2E struct {
 	reused int
 }
 
+func vfE2ESeen(hctx *HandlerContext) string {
+	return fmt.Sprintf("%d %s %d %s %s", uint64(hctx.actorID), vfBool(hctx.bodyFormatTL2), hctx.reqTag,
+		vfHex(hctx.Request), vfReqExtraString(&hctx.RequestExtra))
+}
+
 func vfE2EInit() {
 	ln, err := net.Listen("tcp4", "127.0.0.1:0")
 	if err != nil {
@@ -961,23 +1000,31 @@ func vfE2EInit() {
 	}
 	vfE2E.addr = ln.Addr().String()
 	nolog := func(format string, args ...any) {}
-	srv := NewServer(ServerWithLogf(nolog), ServerWithHandler(func(ctx context.Context, hctx *HandlerContext) error {
+	script := func() *vfE2EScript {
 		vfE2E.mu.Lock()
-		sc := vfE2E.cur
-		vfE2E.mu.Unlock()
-		if sc == nil {
-			return fmt.Errorf("no script")
-		}
-		sc.seen = fmt.Sprintf("%d %s %d %s %s", uint64(hctx.actorID), vfBool(hctx.bodyFormatTL2), hctx.reqTag,
-			vfHex(hctx.Request), vfReqExtraString(&hctx.RequestExtra))
-		hctx.Response = append(hctx.Response, sc.respBody...)
-		hctx.ResponseExtra = sc.respExtra
-		if sc.errTok != "-" {
-			p := strings.Split(sc.errTok, ":")
-			return &Error{Code: int32(uint32(vfU64(p[0]))), Description: string(vfSub(p[1]))}
-		}
-		return nil
-	}))
+		defer vfE2E.mu.Unlock()
+		return vfE2E.cur
+	}
+	srv := NewServer(ServerWithLogf(nolog),
+		ServerWithSyncHandler(func(ctx context.Context, hctx *HandlerContext) error {
+			sc := script()
+			if sc == nil || sc.path == "d" {
+				return ErrNoHandler // goes to a worker
+			}
+			sc.seen = vfE2ESeen(hctx)
+			lh, err := hctx.StartLongpoll(sc)
+			sc.lh = lh
+			sc.started <- err
+			return err
+		}),
+		ServerWithHandler(func(ctx context.Context, hctx *HandlerContext) error {
+			sc := script()
+			if sc == nil {
+				return fmt.Errorf("no script")
+			}
+			sc.seen = vfE2ESeen(hctx)
+			return sc.fill(hctx)
+		}))
 	go func() { _ = srv.Serve(ln) }()
 	vfE2E.client = NewClient(ClientWithLogf(nolog))
 }
@@ -990,8 +1037,10 @@ func vfHdrE2E(f []string) string {
 	n := int(vfU64(f[1]))
 	var out []string
 	for i := 0; i < n; i++ {
-		g := f[2+32*i : 2+32*(i+1)]
-		sc := &vfE2EScript{respBody: vfUnhex(g[18]), errTok: g[19], respExtra: vfParseRespExtra(g[20:32])}
+		path := f[2+33*i]
+		g := f[3+33*i : 3+33*i+32]
+		sc := &vfE2EScript{path: path, respBody: vfUnhex(g[18]), errTok: g[19], respExtra: vfParseRespExtra(g[20:32]),
+			started: make(chan error, 1), cancelled: make(chan struct{})}
 		vfE2E.mu.Lock()
 		vfE2E.cur = sc
 		vfE2E.mu.Unlock()
@@ -1001,26 +1050,69 @@ func vfHdrE2E(f []string) string {
 		req.Body = append(req.Body, vfUnhex(g[3])...)
 		req.Extra = vfParseReqExtra(g[4:18])
 		// a context without deadline: a deadline would be written into the request extra (fillRequestTimeout)
+		ctx, cancel := context.WithCancel(context.Background())
 		type doRes struct {
 			resp *Response
 			err  error
 		}
 		ch := make(chan doRes, 1)
 		go func() {
-			r, e := vfE2E.client.Do(context.Background(), "tcp4", vfE2E.addr, req)
+			r, e := vfE2E.client.Do(ctx, "tcp4", vfE2E.addr, req)
 			ch <- doRes{r, e}
 		}()
+		note := ""
+		if path != "d" {
+			// the request is parked; answer it from here, through the context the server hands out
+			select {
+			case err := <-sc.started:
+				if err != nil {
+					note = "startlongpoll:" + strings.ReplaceAll(err.Error(), " ", "_")
+				}
+			case <-time.After(30 * time.Second):
+				cancel()
+				return "driver-error e2e longpoll was not started"
+			}
+			if note == "" {
+				switch path {
+				case "l":
+					hctx2, ok := sc.lh.FinishLongpoll()
+					if !ok {
+						note = "finishlongpoll-returned-nothing"
+					} else {
+						hctx2.SendLongpollResponse(sc.fill(hctx2))
+					}
+				case "e":
+					sc.lh.CommonConn.SendEmptyResponse(sc.lh)
+				case "c":
+					cancel()
+					select {
+					case <-sc.cancelled:
+						if _, ok := sc.lh.FinishLongpoll(); ok {
+							note = "finishlongpoll-after-cancel-returned-a-context"
+						}
+					case <-time.After(30 * time.Second):
+						note = "cancellongpoll-not-called"
+					}
+				}
+			}
+		}
 		var resp *Response
 		var err error
 		select {
 		case r := <-ch:
 			resp, err = r.resp, r.err
 		case <-time.After(30 * time.Second):
-			return "driver-error e2e call timed out"
+			cancel()
+			return "driver-error e2e call timed out " + note
 		}
+		cancel()
 		var rpcErr *Error
 		var seenByCaller string
 		switch {
+		case note != "":
+			seenByCaller = "fail " + note
+		case path == "c" && errors.Is(err, context.Canceled):
+			seenByCaller = "cancelled"
 		case resp == nil:
 			seenByCaller = fmt.Sprintf("fail %v", err)
 		case err == nil:
@@ -1040,6 +1132,26 @@ func vfHdrE2E(f []string) string {
 		out = append(out, sc.seen+" => "+seenByCaller)
 	}
 	return "ok " + strings.Join(out, " ; ") + fmt.Sprintf(" | pooled_response_reused_total=%d", vfE2E.reused)
+}
+
+// lpfields <name> ...: is the named member part of handlerContextFields, i.e. of what toLongpollContext saves into
+// longpollHctx and finishLongpoll2 restores into the context returned by FinishLongpoll (reflection on the real types)
+func vfLpFields(f []string) string {
+	saved := map[string]bool{}
+	lt := reflect.TypeOf(longpollHctx{})
+	ht := reflect.TypeOf(HandlerContext{})
+	emb, ok1 := lt.FieldByName("handlerContextFields")
+	hemb, ok2 := ht.FieldByName("handlerContextFields")
+	if ok1 && ok2 && emb.Anonymous && hemb.Anonymous && emb.Type == hemb.Type {
+		for i := 0; i < emb.Type.NumField(); i++ {
+			saved[emb.Type.Field(i).Name] = true
+		}
+	}
+	var out []string
+	for _, n := range f[1:] {
+		out = append(out, n+"="+vfBool(saved[n]))
+	}
+	return "ok " + strings.Join(out, " ")
 }
 
 // ------------------------------------------------------------------------------------------ driver
@@ -1075,6 +1187,8 @@ func vfRun(line string) (res string) {
 		return vfHdrRoundTrip(f)
 	case "e2e":
 		return vfHdrE2E(f)
+	case "lpfields":
+		return vfLpFields(f)
 	}
 	return "driver-error unknown op " + f[0]
 }
